@@ -187,6 +187,35 @@ def _unsliced_sort(prog):
         return False
 
 
+def _has_kind(prog, kind):
+    from .prog import walk
+
+    return any(n[0] == kind for n in walk(prog))
+
+
+def _steer_unary(node, src, avoid, cols=None):
+    """Rewrite a drawn unary node so that it stays out of the trigger region of the findings in `avoid`."""
+    if node is None or not avoid:
+        return node
+    from .known import sort_columns_below
+
+    if "D9" in avoid and node[0] == "sort" and _has_kind(src, "chain"):
+        terms = tuple((e, asc) for e, asc in node[2] if e[0] == "ref")
+        if not terms:
+            return None
+        node = ("sort", src, terms)
+    if "D10" in avoid and node[0] == "proj":
+        need = sort_columns_below(src)
+        missing = [t for t in need if t not in node[2] and (cols is None or t in cols)]
+        if missing:
+            from .prog import children  # noqa: F401
+
+            have = set(node[2])
+            keep = tuple(node[2]) + tuple(t for t in sorted(missing, key=lambda t: t.qualified_name) if t not in have)
+            node = ("proj", src, keep)
+    return node
+
+
 @st.composite
 def st_program(draw, cfg, universe=None, leaves=None):
     """Returns (universe, leaves, prog).
@@ -219,6 +248,8 @@ def st_program(draw, cfg, universe=None, leaves=None):
             sides.append(("leaf", i))
     history = [main]
     counter = [0]
+    # steering around the trigger regions of open known findings (DESIGN 3.5); one case in ten is left un-steered
+    avoid = cfg.avoid if (cfg.avoid and draw(st.integers(0, 9)) > 0) else frozenset()
     nops = max(draw(st.integers(cfg.min_ops, cfg.max_ops)), draw(st.integers(cfg.min_ops, cfg.max_ops)))
     made = 0
     attempts = 0
@@ -237,6 +268,7 @@ def st_program(draw, cfg, universe=None, leaves=None):
         steer = sql(eng) and draw(st.integers(0, 9)) > 0
         if choice == "u":
             node = draw(st_unary_node(main, cols, universe, cfg.unary, cfg))
+            node = _steer_unary(node, main, avoid, cols)
         elif choice == "mat":
             if not (steer and _unsliced_sort(main)):
                 node = ("mat", main, f"m{counter[0]}")
@@ -259,6 +291,8 @@ def st_program(draw, cfg, universe=None, leaves=None):
                 keep = [k for k in cfg.unary if k in ("sel", "slice", "dedup") or (k == "sort" and not steer)]
                 if keep:
                     other = draw(st_unary_node(main, cols, universe, keep, cfg))
+            if other is not None and "D11" in avoid and (_has_kind(main, "chain") or _has_kind(other, "chain")):
+                other = None
             if other is not None:
                 node = ("chain", main, other) if draw(st.booleans()) else ("chain", other, main)
         elif choice == "join":
